@@ -21,8 +21,10 @@ use std::time::{Duration, Instant};
 
 #[derive(Clone, Copy, Debug, PartialEq)]
 enum Status { NotStarted, AtYield, Running, Parked, Waking, Exited }
-#[derive(Clone, Debug, PartialEq)]
+#[derive(Clone, Debug)]
 pub struct Choice { pub enabled: Vec<usize>, pub idx: usize, pub prev_enabled: bool, pub state: u128 }
+/// two choices are the same when the same workers were enabled and the same one was taken (the state fingerprint is derived data)
+impl PartialEq for Choice { fn eq(&self, o: &Choice) -> bool { self.enabled == o.enabled && self.idx == o.idx && self.prev_enabled == o.prev_enabled } }
 #[derive(Clone, Copy, Debug, PartialEq)]
 enum Phase { Idle, AfterGw(usize), Busy }
 
